@@ -313,6 +313,36 @@ func (c *Ctx) panicDischargers(r *Report, reach map[*ssa.Function]bool) []panicD
 			if ok, _ := c.invPH(); !ok {
 				return "", false
 			}
+			// the list handed over is the parameter list of the right operand's serialisation itself — not one
+			// that also carries the left operand's parameters
+			sites := 0
+			for _, f := range c.Funcs {
+				if !inLib(f) {
+					continue
+				}
+				for _, b := range f.Blocks {
+					for _, in := range b.Instrs {
+						call, ok := in.(*ssa.Call)
+						if !ok || call.Call.StaticCallee() != dr.LikeParam || len(call.Call.Args) < 3 {
+							continue
+						}
+						sites++
+						ex, ok := c.resolve(call.Call.Args[2], nil).(*ssa.Extract)
+						if !ok || ex.Index != 1 {
+							r.note("likeParam is handed %s, not the right operand's own parameter list", c.key(call.Call.Args[2], nil))
+							return "", false
+						}
+						sc, ok := ex.Tuple.(*ssa.Call)
+						if !ok || sc.Call.StaticCallee() != dr.SerParam || len(sc.Call.Args) < 2 || !strings.HasSuffix(c.key(sc.Call.Args[len(sc.Call.Args)-1], nil), ".Right") {
+							r.note("likeParam is handed %s, not the right operand's own parameter list", c.key(call.Call.Args[2], nil))
+							return "", false
+						}
+					}
+				}
+			}
+			if sites == 0 {
+				return "", false
+			}
 			return "PAYLOAD-TYPE + validateLike + INV-PH: the right side of a LIKE node is a Wild/Regexp leaf, every in-module constructor call of such a leaf passes a string, and a leaf yields exactly one parameter", true
 		},
 		// entry-rooted type flow for the constructor's assertions on its operands
